@@ -1,7 +1,7 @@
 """The public entry points through which one (type, value, options) triple can be pushed."""
 from .core import HarnessError
 
-ENTRIES = ["call", "transform", "schema", "dataclass", "param", "return", "setattr"]
+ENTRIES = ["call", "transform", "schema", "dataclass", "param", "return", "setattr", "addition", "varkw", "varargs"]
 
 OPTION_KEYS = {"no_explicit_cast", "no_data_loss", "collect_errors", "max_errors", "invalid_items", "invalid_keys",
                "invalid_values", "allow_subclasses", "addition", "ignore_required", "data_first_search",
@@ -89,4 +89,43 @@ def build_entry(entry, T, options):
             return v
         g = utype.parse(f, options=opts)
         return lambda x: g(x)
+    if entry == "addition":
+        # the declared type of additional (undeclared) keys of a data class
+        o = dict(options or {})
+        o.pop("addition", None)
+        kw = {k: v for k, v in o.items()}
+        base_opts = utype.Options(addition=T, **kw)
+        S = type("EA", (utype.Schema,), {"__annotations__": {"known": int}, "known": 0, "__module__": __name__, "__qualname__": "EA", "__options__": base_opts})
+
+        def run(x):
+            inst = S(zz=x)
+            if "zz" not in inst:
+                return ABSENT
+            return dict.__getitem__(inst, "zz")
+        return run
+    if entry in ("varkw", "varargs"):
+        flags = {"entered": False}
+        got = {}
+        if entry == "varkw":
+            def f(first: int = 0, **kw: T):
+                flags["entered"] = True
+                got["v"] = kw
+                return None
+        else:
+            def f(first: int = 0, *rest: T):
+                flags["entered"] = True
+                got["v"] = rest
+                return None
+        g = utype.parse(f, options=opts, ignore_result=True)
+
+        def run(x):
+            flags["entered"] = False
+            got.clear()
+            if entry == "varkw":
+                g(zz=x)
+                return got["v"]["zz"] if "zz" in got.get("v", {}) else ABSENT
+            g(1, x)
+            return got["v"][0] if got.get("v") else ABSENT
+        run.flags = flags
+        return run
     raise HarnessError(f"bad entry {entry}")
